@@ -20,7 +20,7 @@ def register(reg):
                'forall(lambda j=Int: implies(0 <= j and j < len(write_items), write_items[j][0] != STATEKEY))')
     reg.contract(HIST + '._compact_prefix', params={'prefix': KBytes, 'write_items': WI, 'keys_to_delete': Set(KBytes)}, returns=Int,
                  requires=['len(prefix) == 2'], raises={}, assumes_inv=False, maintains_inv=False,
-                 modifies=['write_items', 'keys_to_delete', 'self.comp_flush_count', 'self.g_done'],
+                 modifies=['write_items', 'keys_to_delete', 'self.comp_flush_count', 'self.g_done', 'self.g_hx'],
                  ensures=['result >= 0', 'self.comp_flush_count >= old(self.comp_flush_count)',
                           'self.g_done == snoc(old(self.g_done), beu_dec(prefix))',
                           # history rows have 13-byte keys: the 7-byte state key is never queued
@@ -31,7 +31,7 @@ def register(reg):
         HIST + '._compact_history', params={'limit': Int},
         requires=[('compaction-in-progress', '0 <= self.comp_cursor and self.comp_cursor <= 65536'), ('fresh-log', 'len(self.g_done) == 0')],
         raises={}, returns=Int, assumes_inv=False, maintains_inv=False,
-        modifies=['self.db.g_map', 'self.db.g_commits', 'self.comp_cursor', 'self.comp_flush_count', 'self.flush_count', 'self.g_done'],
+        modifies=['self.db.g_map', 'self.db.g_commits', 'self.comp_cursor', 'self.comp_flush_count', 'self.flush_count', 'self.g_done', 'self.g_hx'],
         locals={'write_items': WI, 'keys_to_delete': Set(KBytes)},
         ghost={('before', 'self._flush_compaction(cursor, write_items, keys_to_delete)'):
                ['check("each-prefix-once-in-order", len(self.g_done) == cursor - old(self.comp_cursor) and '
@@ -48,6 +48,6 @@ def register(reg):
                                        ('no-state-key', NOSTATE),
                                        ('cursor-not-yet-moved', 'self.comp_cursor == old(self.comp_cursor)'),
                                        ('progress', 'implies(cursor == old(self.comp_cursor), write_size == 0)')],
-                           modifies=['write_items', 'keys_to_delete', 'self.comp_flush_count', 'self.g_done'],
+                           modifies=['write_items', 'keys_to_delete', 'self.comp_flush_count', 'self.g_done', 'self.g_hx'],
                            decreases='65536 - cursor')},
         props=['C14'])
